@@ -47,12 +47,18 @@ type driver struct {
 }
 
 // sigTag: the tag for an image that differs from the reference only in S: lines smaller by a
-// signature section
-func (d *driver) sigTag() string {
-	if d.seq {
+// signature section. Concurrent experiments: the lookup race C19-F2. Sequential experiments: C19-F3
+// ONLY with its evidence in the cache directory — a control section advertised without its
+// signature section next to a data section that was advertised by ANOTHER download (the links point
+// into different expand-apk directories); anything else is a new defect and gets an unlisted tag.
+func (d *driver) sigTag(cache string) string {
+	if !d.seq {
+		return "hit-without-signature-section"
+	}
+	if d.w.ctlWithoutSigOnSharedData(cache) {
 		return "stale-hit-without-signature-section"
 	}
-	return "hit-without-signature-section"
+	return "hit-without-signature-section-in-sequential-builds"
 }
 
 func (d *driver) violation(tag string, desc map[string]any) {
@@ -147,7 +153,7 @@ func (d *driver) checkBuild(what string, rev int, pkgs []string, cache string, r
 		var tag string
 		var bad []string
 		if sl := d.onlySizeLinesDiffer(rev, pkgs, r.Res); sl != nil {
-			tag, bad = d.sigTag(), sl
+			tag, bad = d.sigTag(cache), sl
 		} else {
 			tag, bad = d.triage(cache, "digest-differs-with-cache")
 		}
@@ -211,7 +217,7 @@ func (d *driver) checkOffline(what string, pkgs []string, cache string, desc map
 		tag, bad := d.triage(cache, "offline-digest-differs")
 		for rev := range d.w.revs {
 			if sl := d.onlySizeLinesDiffer(rev, pkgs, r.Res); sl != nil {
-				tag, bad = d.sigTag(), sl
+				tag, bad = d.sigTag(cache), sl
 			}
 		}
 		r.Res.InstalledDB = ""
